@@ -8,6 +8,7 @@ where r = angle mod 2 pi.  The loop is unrolled until the solver refutes `rest >
 8 iterations).  The builder path `Qubit.rot_X/Y/Z(angle=...)` is then checked to emit one rotation per
 step, same axis, same order.
 """
+import os
 from fractions import Fraction
 
 import z3
@@ -28,6 +29,7 @@ MAX_STEPS = 8
 
 def make_body(spec, falsify=False):
     tol_lo, tol_hi, d0 = Fraction(spec["tol_lo"]), Fraction(spec["tol_hi"]), spec["d0"]
+    nomod = bool(spec.get("nomod"))     # fallback exploration for code that does not reduce the angle with the float modulo
 
     def body(inp):
         ex = cur()
@@ -40,10 +42,14 @@ def make_body(spec, falsify=False):
         ex.assume_expr(tol >= R(tol_lo))
         ex.assume_expr(tol <= R(tol_hi))
         site = {"d0": "none" if d0 is None else "any"}
+        if nomod:
+            site["nomod"] = True
         state = {}
 
         def hook(r):
             state["r"] = r
+            if nomod:
+                raise Infeasible()          # the reduction by `%` is what every other spec explores
             rest = r / R(PI_F)
             if d0 is None:
                 ex.assume_expr(rest <= tol)                       # no step at all
@@ -58,6 +64,8 @@ def make_body(spec, falsify=False):
         def log2_hook(k, cond_for):
             # partition of the work by the SECOND exponent: "any" = no pinning; "none" = only paths with a single step;
             # an integer = only paths whose second exponent is that value
+            if "r" not in state and not nomod:
+                raise Infeasible()          # no modulo seen: left to the `nomod` spec
             if k != 2 or d1 == "any":
                 return None
             if d1 == "none":
@@ -80,12 +88,26 @@ def make_body(spec, falsify=False):
             restore()
             symreal.MOD_HOOK = None
             symreal.LOG2_HOOK = None
-        if getattr(ex, "nfresh", 0) > 6 * MAX_STEPS:
+        if getattr(ex, "nfresh", 0) > 6 * MAX_STEPS:  # (before the residual terms below are added)
             raise PathAbort("unwinding bound exceeded")
         if isinstance(d1, int) and ex.nlog2 < 2:
             return []          # single-step paths belong to the "none" partition
         if raised is not None:
             return [Ob("no_exception", False, dict(site, exc=type(raised).__name__), info=str(raised)[:120])]
+        if "r" not in state:
+            if not nomod:
+                raise Infeasible()
+            # the code never took `angle % 2 pi`: r is DEFINED here as the mathematical remainder, for angles within a few turns
+            kk = z3.Int("turns")
+            inp.vars["turns"] = kk
+            rr_ = z3.Real("r_true")
+            inp.vars["r_true"] = rr_
+            ex.assume_expr(angle >= R(-6 * PI_F))
+            ex.assume_expr(angle <= R(8 * PI_F))
+            ex.assume_expr(angle == rr_ + R(2 * PI_F) * z3.ToReal(kk))
+            ex.assume_expr(rr_ >= 0)
+            ex.assume_expr(rr_ < R(2 * PI_F))
+            state["r"] = rr_
         r = state["r"]
         obs = []
         total = z3.RealVal(0)
@@ -101,8 +123,27 @@ def make_body(spec, falsify=False):
         within = z3.And(err <= tol, err >= -tol)
         if falsify:
             within = z3.And(within, tol < R(tol_lo))
+        # the same clause with twice the tolerance: implied by the property; its counterexamples sit well inside the violating region,
+        # so they replay with floats even when the model of the exact clause lies on the boundary err == tol
+        obs.append(Ob("within_twice_tolerance", z3.Implies(tol >= R(T_SMALL), z3.And(err <= 2 * tol, err >= -2 * tol)), dict(site, regime="tol>=255/2^32")))
         obs.append(Ob("within_tolerance", z3.Implies(tol >= R(T_SMALL), within), dict(site, regime="tol>=255/2^32")))
         obs.append(Ob("within_tolerance", z3.Implies(tol < R(T_SMALL), within), dict(site, regime="tol<255/2^32")))
+        # In the regime of the recorded finding (steps with exponent >= 32 are dropped) the tolerance clause is undecidable from the
+        # outside, but the unchanged code still guarantees this much: what is missing is exactly the greedy continuation from the
+        # residual, and its first step is one the format cannot hold (exponent >= 32 after removing the factors of two of n).
+        # Lenient at band boundaries (any exponent D the stub contract allows may justify the drop), so it cannot alarm falsely.
+        eps = symreal.EPS
+        just = [err * R(Fraction(2) ** 39) <= R(Fraction(255) * (1 + eps))]
+        for D in range(32, 39):
+            ex.nfresh += 1
+            nD = z3.Int(f"n_res{D}")
+            inp.vars[f"n_res{D}"] = nD
+            ex.assume_expr(z3.ToReal(nD) <= err * R(Fraction(2) ** D))
+            ex.assume_expr(err * R(Fraction(2) ** D) < z3.ToReal(nD) + 1)
+            band = z3.And(err * R(Fraction(2) ** D) <= R(Fraction(255) * (1 + eps)), R(Fraction(255) * (1 - eps)) < err * R(Fraction(2) ** (D + 1)))
+            just.append(z3.And(band, nD % (2 ** (D - 31)) != 0))
+        obs.append(Ob("drops_only_unencodable_steps", z3.Implies(tol < R(T_SMALL), z3.Or(within, z3.And(err > tol, z3.Or(*just)))),
+                      dict(site, regime="tol<255/2^32")))
         obs.append(Ob("terminates_within_unwinding", len(nds) <= MAX_STEPS, site, info={"steps": len(nds)}))
         return obs
 
@@ -146,6 +187,11 @@ def work(spec):
     res = worker_result(ex, samples=[dict(spec, paths=ex.stats.paths)])
     for c in res["cexs"]:
         c["info"] = {"spec": spec, "detail": c["info"]}
+    if spec.get("hunt"):
+        # a time-boxed slice: stopping at the budget is its stated bound, not an inconclusive verdict
+        res["truncated"] = [a for a in res["aborts"] if "budget" in a or "path bound" in a]
+        res["aborts"] = [a for a in res["aborts"] if a not in res["truncated"]]
+        res["hunt_paths"] = ex.stats.paths
     return res
 
 
@@ -164,12 +210,16 @@ def replay(harness, cex):
         return bool(bad), f"builder emitted a different rotation sequence: {bad}"
     vals = cex["values"]
     r = _frac(vals.get("r_mod1", 0))
+    if spec.get("nomod"):
+        r = _frac(vals.get("angle", 0))
     tol = float(_frac(vals["tol"]))
     two_pi = 2 * PI_F
     candidates = []
     if r >= Fraction(two_pi):
         candidates.append(-1e-20)          # float modulo rounds up to 2 pi itself
     candidates += [float(r), float(r) + two_pi, float(r) - 2 * two_pi]
+    # the solver's r often sits exactly on a floor / band boundary, which float rounding can cross: also try r nudged upwards a little
+    candidates += [float(r) * (1 + k * 2.0 ** -40) for k in (1, 16, 256, 4096)]
     import math
     problems = []
     for angle in candidates:
@@ -187,11 +237,27 @@ def replay(harness, cex):
             bad.append("exponent outside 0..255")
         if abs(rr - tot) > Fraction(tol) * (1 + Fraction(1, 10 ** 6)) + Fraction(1, 10 ** 14):
             bad.append(f"error {float(abs(rr - tot)):.3e} > tol {tol:.3e}")
+        res_ = rr - tot
+        if res_ > Fraction(tol) * (1 + Fraction(1, 10 ** 6)) + Fraction(1, 10 ** 14) and res_ > 0:
+            q = Fraction(255) / res_
+            D = q.numerator.bit_length() - q.denominator.bit_length()
+            while Fraction(2) ** D > q:
+                D -= 1
+            while Fraction(2) ** (D + 1) <= q:
+                D += 1
+            nn = int(res_ * Fraction(2) ** D)
+            dd = D
+            while nn and nn % 2 == 0 and dd > 0:
+                nn, dd = nn // 2, dd - 1
+            # stay away from the band boundaries, where the float code may legitimately have picked the neighbouring exponent
+            clear = Fraction(2) ** D * (1 + Fraction(1, 2 ** 40)) < q < Fraction(2) ** (D + 1) * (1 - Fraction(1, 2 ** 40))
+            if dd < 32 and clear and 1 <= nn <= 255:
+                bad.append(f"dropped an encodable step: residual {float(res_):.3e} continues with ({nn}, {dd})")
         if bad:
             problems.append(f"get_angle_spec_from_float({angle!r}, {tol!r}) = {nds}: " + "; ".join(bad))
     label = cex["label"]
-    match = [p for p in problems if (label == "within_tolerance" and "error" in p) or (label == "exponent_encodable" and "exponent" in p)
-             or (label == "numerator_encodable" and "numerator" in p) or (label == "no_exception" and "raises" in p)]
+    match = [p for p in problems if (label in ("within_tolerance", "within_twice_tolerance") and "error" in p) or (label == "exponent_encodable" and "exponent" in p)
+             or (label == "numerator_encodable" and "numerator" in p) or (label == "drops_only_unencodable_steps" and "dropped an encodable" in p) or (label == "no_exception" and "raises" in p)]
     return bool(match), "; ".join(match or problems)[:600] or "not reproduced with floats"
 
 
@@ -200,11 +266,18 @@ def main(tier, seed):
                  "bounded symbolic execution of the real get_angle_spec_from_float on a real-valued angle and tolerance (z3 Reals and "
                  "Ints, QF_LIRA); the loop is unrolled until z3 refutes `rest > tol`; on every path the encodability of every step and "
                  "|sum n/2^d - r/pi| <= tol are decided by z3; counterexamples are replayed with real floats on the unstubbed function")
-    tol_lo = Fraction(1, 10 ** 9) if tier == "thorough" else Fraction(1, 10 ** 2)
+    # measured on 16 cores: whole range down to 1e-4 = 22 s, down to 1e-5 = 13 min; below that the exhaustive exploration is out of
+    # reach (about 0.5 s of solver time per path, path count growing by ~8 per decade), so tighter tolerances are covered by SLICES:
+    # one point tolerance and fixed first / second exponents each; the tiny ones complete, the 4-step ones are explored under a time
+    # budget and reported as hunting (non-exhaustive) -- they are there to catch changes that only bite below 1e-6.
+    tol_lo = Fraction(1, 10 ** 5) if tier == "thorough" else Fraction(1, 10 ** 4)
+    if os.environ.get("VERIF_C19_TOL"):          # sizing experiments only
+        tol_lo = Fraction(os.environ["VERIF_C19_TOL"])
     specs = []
     # partition by the first exponent d0: 255/rest in [2^d0, 2^(d0+1)), rest in (tol, 2]
     import math
     dmax = int(math.floor(math.log2(255 / float(tol_lo)))) + 1
+
     def add(tl, th, d0):
         # second-level partition by the second exponent (d1 = d0 + 7 .. d0 + 8 are the only feasible values plus a margin)
         base = {"tol_lo": tl, "tol_hi": th, "d0": d0}
@@ -218,32 +291,56 @@ def main(tier, seed):
     for d0 in range(6, dmax + 1):
         add(str(tol_lo), "1/10", d0)
     add(str(tol_lo), "1/10", None)
-    # the tolerance the SDK itself uses (default 1e-4), as a point range
-    if tier != "thorough":
-        for d0 in range(6, 23):
-            add("1/10000", "1/10000", d0)
-    # tiny tolerances (steps with exponent >= 32 are needed): a slice of the thorough range that is cheap enough for every run
-    if tier != "thorough":
-        for d0 in (32, 33, 34):
-            specs.append({"tol_lo": "1/1000000000", "tol_hi": "1/1000000000", "d0": d0, "d1": "none"})
+    th = tier == "thorough"
+    # slices in the regime of the recorded finding (tol < 255/2^32): a single step with exponent 32..34 (38 thorough); exhaustive
+    for d0 in range(32, 39 if th else 35):
+        specs.append({"tol_lo": "1/1000000000", "tol_hi": "1/1000000000", "d0": d0, "d1": "none"})
+    if th:
+        for d0 in (6, 20, 25, 26):
+            for d1 in (d0 + 7, d0 + 8):
+                specs.append({"tol_lo": "1/1000000000", "tol_hi": "1/1000000000", "d0": d0, "d1": d1, "hunt": True, "budget": 600})
+    # slices that need four steps (tol 1e-7 .. 1e-6): hunting, time-boxed
+    hb = 600 if th else 25
+    specs.append({"tol_lo": "1/10000000", "tol_hi": "1/10000000", "d0": 6, "d1": 14, "hunt": True, "budget": hb})
+    specs.append({"tol_lo": "1/10000000", "tol_hi": "1/1000000", "d0": 7, "d1": 15, "hunt": True, "budget": hb})
+    if th:
+        specs.append({"tol_lo": "1/100000000", "tol_hi": "1/100000000", "d0": 6, "d1": 13, "hunt": True, "budget": hb})
+        specs.append({"tol_lo": "1/1000000", "tol_hi": "1/1000000", "d0": 8, "d1": 15, "hunt": True, "budget": hb})
+    specs.append({"tol_lo": "1/100", "tol_hi": "1/10", "d0": "free", "nomod": True, "budget": 120})
     for axis in ("X", "Y", "Z"):
         specs.append({"kind": "builder", "axis": axis})
-    rep.bounds = [f"all real angles (through r = angle mod 2 pi in [0, 2 pi]) x all tolerances in [{float(tol_lo):g}, 0.1], partitioned by the first exponent; "
-                  f"at most {MAX_STEPS} loop iterations (checked); quick additionally takes the SDK's default tolerance 1e-4 as a point (thorough covers it inside its range); "
-                  "work is partitioned by the first and second exponent",
+    nhunt = sum(1 for sp_ in specs if sp_.get("hunt"))
+    rep.bounds = [f"EXHAUSTIVE: all real angles (through r = angle mod 2 pi in [0, 2 pi]) x all tolerances in [{float(tol_lo):g}, 0.1] (the SDK's default 1e-4 "
+                  f"included), partitioned by the first and second exponent; at most {MAX_STEPS} loop iterations (checked)",
+                  f"EXHAUSTIVE slices at tolerance 1e-9: angles whose decomposition is a single step with exponent 32..{38 if th else 34} (regime of the recorded "
+                  "finding; also decides `drops_only_unencodable_steps` there)",
+                  f"HUNTING (time-boxed, not exhaustive; explored path counts in `hunting_slices`): {nhunt} slices with a point tolerance between 1e-9 and 1e-6 "
+                  "and fixed first two exponents, which need four steps",
                   "builder: 0..3 steps with symbolic (n, d), axes X, Y, Z"]
-    rep.outside = ["tolerances below " + f"{float(tol_lo):g}" + (" (quick tier; thorough goes to 1e-9)" if tier != "thorough" else ""),
+    rep.outside = [f"tolerances below {float(tol_lo):g} other than the slices above (measured: the exhaustive exploration costs 22 s down to 1e-4, 13 min down to "
+                   "1e-5 on 16 cores and grows about tenfold per decade)",
                    "float rounding of `%` and `/ pi` beyond the stub contracts (relative 2^-53, absorbed by r)", "non-finite angles"]
     rep.stubs = ["np / int of netqasm.sdk.toolbox.state_prep replaced by vf/symreal.py: float modulo returns any r in [0, 2 pi] (closed: the float "
                  "result can round up to 2 pi); scaling by powers of two and `rest -= n/2**d` exact; floor(log2(c/x)) any integer D with "
                  "2^D <= (c/x)(1+2^-50), (c/x)(1-2^-50) < 2^(D+1); floor/int of a real: k <= v < k+1",
                  "builder check: get_angle_spec_from_float replaced by a symbolic step list"]
-    for r in pmap(work, specs):
+    hunting = []
+    specs.sort(key=lambda sp_: -sp_.get("budget", 0))
+    for sp_, r in zip(specs, pmap(work, specs)):
         rep.merge_worker("angles", r)
+        if sp_.get("hunt"):
+            hunting.append({"slice": {k: sp_[k] for k in ("tol_lo", "tol_hi", "d0", "d1")}, "paths_explored": r.get("hunt_paths"),
+                            "stopped_by_budget": bool(r.get("truncated"))})
     rep.section("angles", None, specs=len(specs))
+    rep.extra["hunting_slices"] = hunting
     ex = Explorer(max_paths=50)
     ex.run(make_body({"tol_lo": "1/100", "tol_hi": "1/10", "d0": 7}, falsify=True))
-    rep.witness("tolerance with falsified oracle", any(c.label == "within_tolerance" for c in ex.cexs))
+    refuted = any(c.label == "within_tolerance" for c in ex.cexs)
+    if not refuted:       # code that does not use the float modulo is only reachable through the fallback spec
+        ex = Explorer(max_paths=200, budget_s=60)
+        ex.run(make_body({"tol_lo": "1/100", "tol_hi": "1/10", "d0": "free", "nomod": True}, falsify=True))
+        refuted = any(c.label == "within_tolerance" for c in ex.cexs)
+    rep.witness("tolerance with falsified oracle", refuted)
 
     def one():
         Explorer(max_paths=3).run(make_body({"tol_lo": "1/100", "tol_hi": "1/10", "d0": 8}))
